@@ -31,7 +31,7 @@ COMPONENTS = {"real": ["amaranth.hdl._ir (build_netlist, emit_rhs/emit_assign/em
 EXPECTED_PROBES = ("sched", "coincide", "srst", "arst", "submodules", "fsm", "part", "array", "reset_inserter", "enable_inserter",
                    "domain_renamer", "memory_design", "library_design", "library_C12", "library_C13", "library_C16", "library_C17", "library_C18", "compared_bits", "undefined_bits_skipped", "internal_signals")
 OPTS = {"max_domains": 3, "max_modules": 4, "wrappers": True, "prints": False, "fsm": True, "max_stmts": 8, "depth": 2,
-        "clock_reads": True, "shadows": True}
+        "clock_reads": True, "shadows": True, "derived_clocks": True}
 CHUNK = 4
 
 
